@@ -601,14 +601,23 @@ class GetItemList(Contract):
     key = F + 'RaggedArray.__getitem__'
     prune_paths = True
 
-    def __init__(self, row_none=(True, True), exclude=()):
-        self.rnone, self.exclude = tuple(row_none), set(exclude)
+    def __init__(self, row_none=(True, True), exclude=(), int_column=False):
+        # int_column: a[lo:hi, k] with one integer column k (the class turns it into the one-element list [k])
+        self.rnone, self.exclude, self.int_column = tuple(row_none), set(exclude), int_column
 
     def params(self, e, st):
         import z3
         from pyvc.engine import Tup, Slice
         rlo, rhi = [None if isnone else z3.Int(nm) for nm, isnone in zip(('rs_start', 'rs_stop'), self.rnone)]
-        return {'self': _ra_self(e, st), 'iis': Tup([Slice(rlo, rhi, None), _arr(e, st, 'cols', 'K', list=True)])}
+        second = z3.Int('col') if self.int_column else _arr(e, st, 'cols', 'K', list=True)
+        return {'self': _ra_self(e, st), 'iis': Tup([Slice(rlo, rhi, None), second])}
+
+    def cols_of(self, L, A):
+        """(number of columns, q -> column index)"""
+        second = A['iis'][1]
+        if self.int_column:
+            return 1, (lambda q: second)
+        return L.len(second), (lambda q: second[q])
 
     def rows_of(self, L, A):
         first = A['iis'][0]
@@ -621,7 +630,7 @@ class GetItemList(Contract):
         PS, ax = prefix_sums(L, A['self'].lengths, 'PSG')
         if L.sym:
             # arithmetic of the row-major pair numbering (lemmas/Sums.lean: pair_index_lt): 0 <= p < m, 0 <= q < k  =>  0 <= p*k + q < m*k
-            m, k = self.rows_of(L, A)[0], L.len(A['iis'][1])
+            m, k = self.rows_of(L, A)[0], self.cols_of(L, A)[0]
             ax = ax + [L.forall2((0, m), (0, k), lambda p, q: L.And(L.mul(p, k) + q >= 0, L.mul(p, k) + q < L.mul(m, k)))]
         return {'PS': PS}, ax
 
@@ -635,10 +644,10 @@ class GetItemList(Contract):
     def requires(self, L, A, G):
         s = A['self']
         ln, n = s.lengths, L.len(s.lengths)
-        first, cols = A['iis']
+        first = A['iis'][0]
         m, row = self.rows_of(L, A)
         out = [('some-rows', n >= 1), ('lengths-positive', L.forall(0, n, lambda t: ln[t] >= 1)),
-               ('flat-data-holds-all-rows', L.len(s._data) == G['PS'](n)), ('some-columns', L.len(cols) >= 1)]
+               ('flat-data-holds-all-rows', L.len(s._data) == G['PS'](n)), ('some-columns', self.cols_of(L, A)[0] >= 1)]
         if first.start is not None:
             out.append(('row-start-within-rows', L.And(first.start >= -n, first.start <= n)))
         if first.stop is not None:
@@ -647,17 +656,17 @@ class GetItemList(Contract):
         return out
 
     def raises(self, L, A, G):
-        ln, cols = A['self'].lengths, A['iis'][1]
+        ln = A['self'].lengths
+        k, col = self.cols_of(L, A)
         m, row = self.rows_of(L, A)
-        return {'IndexError': L.exists2((0, m), (0, L.len(cols)), lambda p, q: L.Or(cols[q] < -ln[row(p)], cols[q] >= ln[row(p)]))}
+        return {'IndexError': L.exists2((0, m), (0, k), lambda p, q: L.Or(col(q) < -ln[row(p)], col(q) >= ln[row(p)]))}
 
     def ensures(self, L, A, N, R, G, V):
         s = A['self']
         ln, data, PS = s.lengths, s._data, G['PS']
-        cols = A['iis'][1]
-        k = L.len(cols)
+        k, col = self.cols_of(L, A)
         m, row = self.rows_of(L, A)
-        cp = lambda p, q: L.ite(cols[q] < 0, cols[q] + ln[row(p)], cols[q])
+        cp = lambda p, q: L.ite(col(q) < 0, col(q) + ln[row(p)], col(q))
         return [('one-row-per-selected-row-each-with-one-entry-per-column', L.And(L.len(R.lengths) == m, L.forall(0, m, lambda p: R.lengths[p] == k))),
                 ('data-holds-the-selected-cells', L.len(R._data) == L.mul(m, k)),
                 ('entry-q-of-row-p-is-the-element-of-the-selected-row', L.forall2((0, m), (0, k), lambda p, q: R._data[L.mul(p, k) + q] == data[PS(row(p)) + cp(p, q)]),
@@ -685,10 +694,11 @@ class GetItemList(Contract):
         return [[z3.Int('N') == 2, z3.Int('K') == 1, z3.Int('ND') == 2], [z3.Int('N') == 2, z3.Int('K') == 2, z3.Int('ND') == 4]]
 
 
-def registry_getitem_list(row_none=(True, True), exclude=()):
+def registry_getitem_list(row_none=(True, True), exclude=(), int_column=False):
     il = IisFromList()
     il.range_as_array = ('first_dimension',)
-    cs = [GetItemList(row_none, exclude), HandleNegative(), ConvertFrom2d(arr2d=True), Starts(), RaggedInit(), il, SliceToList()]
+    il.tuple_as_array = ('second_dimension',)
+    cs = [GetItemList(row_none, exclude, int_column), HandleNegative(), ConvertFrom2d(arr2d=True), Starts(), RaggedInit(), il, SliceToList()]
     return {c.key: c for c in cs}
 
 
